@@ -279,19 +279,7 @@ def r_cfgdiff_macrosep(cx, off_tag="dev-none-stable", on_tag="dev-msep-stable"):
             if c not in ("Lexer::emit_token", "buffer::WorkTokenizedBuffer::insert_token"):
                 continue
             nsep += 1
-            guard = False
-            for p in par:
-                if p.get("k") == "If" and contains(p["cond"], lambda y: F.is_call(y) and F.callee(y) == "macro::needs_macro_sep"):
-                    guard = True
-            cx.rules_run.append("R-MACROSEP-GUARD") if "R-MACROSEP-GUARD" not in cx.rules_run else None
-            cx.ob("R-MACROSEP-GUARD", "%s|%s|guard" % (name.replace("Lexer::", ""), c.split("::")[-1]), guard, F.file_line(F.site(x)),
-                  "MacroSep is emitted under a needs_macro_sep(..) test" if guard else
-                  "a MacroSep is emitted / inserted without consulting needs_macro_sep: the placement rule (never after ';', a label, %then, %else) is bypassed")
-            chan = [k for k in consts if k and "TokenChannel::" in k]
-            pay = [k for k in consts if k and "Payload::" in k]
-            okc = chan == ["channel::TokenChannel::DEFAULT"] and pay == ["buffer::Payload::None"]
-            cx.ob("R-MACROSEP-GUARD", "%s|%s|args" % (name.replace("Lexer::", ""), c.split("::")[-1]), okc, F.file_line(F.site(x)),
-                  "MacroSep goes to the DEFAULT channel without payload" if okc else "MacroSep emitted with channel %s payload %s" % (chan, pay))
+            # (guard and constant arguments of the emission are decided on LEA's paths: R-MACROSEP-EMIT in lea_rules)
             if c.endswith("insert_token"):
                 # position triple copied from the token it is inserted before
                 trip = args[4:7]
@@ -338,7 +326,8 @@ def r_cfgdiff_macrosep(cx, off_tag="dev-none-stable", on_tag="dev-msep-stable"):
               "needs_macro_sep is true before non-statement token types %s" % sorted(targets - stat - {"MacroLabel"})[:6])
         cx.count("R-MACROSEP-GUARD", "truth_rows", len(tt["true"]))
     cx.count(rule, "differing_functions", len(differing))
-    cx.count("R-MACROSEP-GUARD", "emissions", nsep)
+    cx.rules_run.append("R-MACROSEP-GUARD") if "R-MACROSEP-GUARD" not in cx.rules_run else None
+    cx.count("R-MACROSEP-GUARD", "emission_sites", nsep)
 
 
 # ---------------------------------------------------------------------------
